@@ -104,6 +104,10 @@ class CallMixin:
         if isinstance(fv, Opaque) and fv.tag.startswith("lemma:"):
             key = "lemmas:" + fv.tag[6:]
             return self.apply_contract(st, self.contracts[key], args, kwargs, key)
+        if isinstance(fv, Opaque) and fv.tag.split(".")[-1] in getattr(self, "effect_names", ()):
+            # a call into the outside world (file system, logging): recorded in the concrete effect log of the path
+            st.ghost.setdefault("effects", []).append((fv.tag.split(".")[-1], fv.tag, list(args), dict(kwargs)))
+            return Opaque(fv.tag + "()")
         if isinstance(fv, Opaque):
             key = "opaque:" + fv.tag
             c = self.contracts.get(key)
@@ -118,6 +122,12 @@ class CallMixin:
         key = f"{f.module}:{getattr(f, 'decorated', None) or f.qualname}"
         c = self.contracts.get(key)
         node = f.node
+        cur = self.contracts.get(self.current_target) if self.current_target else None
+        forced = key in ((cur.options.get("inline_calls") or ()) if cur is not None else ())
+        if forced:
+            return self.run_body(st, f, args, kwargs, c)
+        if f is getattr(self, "body_func", None) and key == self.current_target:
+            return self.run_body(st, f, args, kwargs, self.body_contract)   # the decorated target calling its own body
         if c is not None and not c.inline and c.kind in ("proved", "assumed", "lemma"):
             return self.apply_contract(st, c, args, kwargs, key)
         is_local = isinstance(node, ast.Lambda) or ".<lambda>" in f.qualname or getattr(f, "local", False) or bool(f.env)
@@ -503,6 +513,30 @@ class CallMixin:
             k = self.to_z(st, self.ev_spec(st, A[1]), T("str")).e
             v = self.to_dyn(st, self.ev_spec(st, A[2]))
             return Z(T("dyn"), smt.dyn_ctor("DDict")(z3.Store(smt.dyn_acc("DDict", 0, d), k, v)))
+        if name == "effect_count":
+            nm = ast.literal_eval(A[0])
+            return zint(len([e for e in st.ghost.get("effects", []) if e[0] == nm]))
+        if name == "effect_arg":
+            nm, k, i = ast.literal_eval(A[0]), ast.literal_eval(A[1]), ast.literal_eval(A[2])
+            es = [e for e in st.ghost.get("effects", []) if e[0] == nm]
+            return es[k][2][i]
+        if name == "effect_result":
+            nm, k = ast.literal_eval(A[0]), ast.literal_eval(A[1])
+            es = [e for e in st.ghost.get("effects", []) if e[0] == nm]
+            if k >= len(es):
+                raise OutsideSubset(f"effect {nm}[{k}] did not happen on this path; log: {[e[0] for e in st.ghost.get('effects', [])]}")
+            return es[k][4]
+        if name == "effect_recv":
+            nm, k = ast.literal_eval(A[0]), ast.literal_eval(A[1])
+            es = [e for e in st.ghost.get("effects", []) if e[0] == nm]
+            return zstr(es[k][1])
+        if name == "effect_index":
+            # position in the overall log of the k-th effect called nm (to state ordering)
+            nm, k = ast.literal_eval(A[0]), ast.literal_eval(A[1])
+            idx = [j for j, e in enumerate(st.ghost.get("effects", [])) if e[0] == nm]
+            return zint(idx[k])
+        if name == "world":
+            return st.ghost["__world"]
         if name == "fn_name":
             f = self.ev_spec(st, A[0])
             if isinstance(f, Func):
